@@ -16,9 +16,10 @@ CLAIMED = {
                 "Kepler's equation (C01_answered_position_accuracy*), via a compositional Lipschitz calculus (570000 km/rad, 460 (km/s)/rad) and a convergence proof of"
                 ' the loop regenerated from source: the iterates are the second-order step, the first-step clamp is inactive, each step squares the error (Taylor '
                 'remainder by a monotone comparison function + MVT), the sixth stopping test cannot fail, so the unchecked eleventh exit is unreachable (C01_newton_*).'
-                ' A healthy orbit is proved to be answered and the ISS set at epoch is proved to meet every hypothesis (no vacuous theorem). PARTIAL: binary64 '
-                'rounding, and convergence for eL^2 > 4/25, are sampled: implementation vs an independent evaluation of the report (worst 0.011 mm) and the AIAA '
-                'vectors',
+                ' A healthy orbit is proved to be answered, example sets on both paths are proved to meet every hypothesis (no vacuous theorem), and the claim has an '
+                'input-only form: an accepted set with e0 <= 0.39 and TLE mean motion 6.4-18 rev/day, at its epoch or drag-free at any time, is answered within 1 mm / '
+                '1 um/s (C01_accuracy_at_epoch_or_drag_free). PARTIAL: binary64 rounding, and convergence for eL^2 > 4/25, are sampled: implementation vs an '
+                'independent evaluation of the report (worst 0.011 mm) and the AIAA vectors',
         "design_ref": 'DESIGN.md 5/C01',
         "note": 'trusted: Coq kernel, stdlib real axioms (+ Uint63/float primitives via Interval in the example), translator (self-checked each run on outcome class '
                 'and state), Spec_SGP4.v transcription (cross-checked by the Gen=Spec proofs: a slip in D4 was caught that way). Known finding C01:aiaa:29141 (decaying'
@@ -169,9 +170,10 @@ CLAIMED = {
                 ' and propagate refuses that mode, near-earth-normal otherwise; the outcome is a total function of the elements; every returned state has passed the '
                 'decay guards and each decayed condition ends in an exception; on a returned state every denominator and sqrt argument of the propagation stage is '
                 "positive (real-number half of 'never NaN'); conversely an orbit that is not decaying IS answered (decay guards at the requested time, eL^2 <= 4/25, "
-                'osculating perigee >= 1.005 earth radii imply a returned state, via the convergence proof of the Kepler loop and rk >= 1: C13_healthy_is_answered*). '
-                "PARTIAL: 'a state is returned' outside that regime, constructor denominators and binary64 overflow are sampled over the printable range of every "
-                'field, incl. the accepted high-eccentricity island',
+                'osculating perigee >= 1.005 earth radii imply a returned state, via the convergence proof of the Kepler loop and rk >= 1: C13_healthy_is_answered*), '
+                'and in terms of the input only: every accepted near-earth set with e0 <= 0.39 is answered at its epoch and, when B* = 0, at every time '
+                "(C13_answered_at_epoch_or_drag_free*). PARTIAL: 'a state is returned' with drag away from epoch and for e0 in (0.39, 0.47), constructor denominators "
+                'and binary64 overflow are sampled over the printable range of every field, incl. the accepted high-eccentricity island',
         "design_ref": 'DESIGN.md 5/C13',
         "note": "trusted: Coq kernel, stdlib real axioms, translator (self-checked each run on every outcome class); guard thresholds are tied to the report's "
                 'period/perigee by C13_period_is_model_period',
